@@ -92,6 +92,11 @@ def run_shard(shard):
 
     if kind == 'outer':
         G = [g for g in spaces.G(tuple(alg.canon2bin.values()), alg.d) if g and 0 not in g]
+        if alg.d >= 5:
+            # the generic outer exponential of a dense mixed-grade element of a 5- or 6-dimensional algebra does not finish: single grades
+            # and vector+bivector only
+            c_ = tuple(alg.canon2bin.values())
+            G = [tuple(k for k in c_ if spaces.grade_of(k) in gs) for gs in ((1,), (2,), (3,), (1, 2), (alg.d - 1,))]
         for keys in list(dict.fromkeys([p for p in pats if 0 not in p] + G)):
             x = gmv(alg, keys, 'x')
             rx = mv_to_ref(alg, ref, x)
